@@ -4,7 +4,7 @@ SPEC = {
                  'EV.Index.C03_reorg_range_forced', 'EV.Index.backupTxs_inverts',
                  'EV.Reorg.calcReorgRange_counterexample_shallow_chain'],
     'claims': {'exclude_tags': ['window'], 'violation_require': ['after_backup']},
-    'suites': ['index', 'reorgrange'],
+    'suites': ['index', 'reorgrange', 'sync'],
     'design_ref': 'DESIGN.md §6 C03',
     'assumptions': [
         'valid chain on every branch; undo rows used are the ones written for the block being backed out (C15 window; a row left behind by an orphaned block is only reachable by a back-out outside the window, DESIGN N2)',
@@ -12,6 +12,6 @@ SPEC = {
         'fetch_and_process_blocks loop (reorg detection mid-batch, prefetch) is validated by the e2e harness, not proved',
     ],
     'level_text': 'proof (partial): backup_block\'s loop is proved to invert advance_block\'s loop exactly for every valid block over the real cache/rows layout (representation of the pre-block UTXO set restored, undo list consumed exactly, counters restored, all touched script hashes handed to History.backup); _calc_reorg_range is proved to return exactly the fork point under the property\'s "twice as high as deep" condition (and shown wrong without it); since the representation relation mentions only the specification of the current chain, any interleaving of advances and back-outs ends in a state representing the surviving chain.  History-row and file layers of the equality are validated by the index suite (structural comparison after every back-out), not yet proved.',
-    'level_note': 'trusted: Lean kernel + 3 axioms; model/code tie by suites index and reorgrange; LevelDB atomic batches',
+    'level_note': 'server-level glue (fetch loop, flush policy under cache pressure, on_caught_up, reorg_chain, clean restarts) is not modelled in Lean: it is judged by suite sync on the real processing task against the Lean specification of the chain at every moment clients are told a height; trusted: Lean kernel + 3 axioms; model/code tie by suites index and reorgrange; LevelDB atomic batches',
     'technique': 'Lean 4 inverse-function proof over a generic store interface + loop-invariant proof of the reorg-range search + differential correspondence',
 }
